@@ -26,7 +26,7 @@ for patch in [os.path.abspath(a) for a in sys.argv[1:]]:
         alarms = []
         notv = set()
         for pid in sorted(props.PROPS):
-            rc, out = sh('./check %s' % pid, cwd=VERIF, e=dict(env, PURL_REPO=W))
+            rc, out = sh('./check %s' % pid, cwd=VERIF, e=dict(env, PURL_REPO=W, VERIF_ISOLATE='1'))
             res[pid] = rc
             for l in out.split('\n'):
                 if l.startswith('NOT-VERIFIED'):
@@ -39,4 +39,3 @@ for patch in [os.path.abspath(a) for a in sys.argv[1:]]:
     finally:
         sh('git -C /repo worktree remove --force %s' % W)
         shutil.rmtree(W, ignore_errors=True)
-sh("sed 's#@REPO@#/repo#' bounded/Cargo.toml.in > bounded/Cargo.toml; sed 's#@REPO@#/repo#' kani/Cargo.toml.in > kani/Cargo.toml", cwd=VERIF)
